@@ -20,7 +20,9 @@ Case kinds
            Both: optionally a second select() through the SAME protocol object on a permuted / renamed population or
            on a SUB-population (one candidate fewer; the stub then has its own script), with design attributes
            (ncross, nmating, nprogeny) RE-ASSIGNED on the live object in between (`b_over`); `gen = generator`
-           hands a numpy.random.Generator instead of a RandomState to the code
+           hands a numpy.random.Generator instead of a RandomState to the code; family uc: every cross type
+           (`vfcty` two / dihybrid / three / four), `upper_percentile`, `nself`; with the exact optimiser the usefulness
+           criterion of every candidate cross is recomputed independently of the selection problem (`c07.uc_pmean`)
   problem  table-driven: problem() of EVERY concrete protocol class (57): the decision space against
            SelProt.subsetSpace / vectorSpace, Spec `specSpace` + `specCover`
   xmapix   core/util/array.py xmapix/triuix/triudix against the model
@@ -38,6 +40,15 @@ compat.install()
 
 ENC_IND = ("subset", "integer", "binary", "real")
 ENC_MATE = ("mate_subset", "mate_integer", "mate_binary", "mate_real")
+UC_NPARENT = {"two": 2, "dihybrid": 2, "three": 3, "four": 4}
+
+
+def _uc_intensity(case):
+    """selection intensity of truncating the upper fraction p of a normal distribution: phi(Phi^-1(1-p)) / p"""
+    import statistics
+    p = float(Fraction(case.get("upper_percentile", "1/10")))
+    nd = statistics.NormalDist()
+    return nd.pdf(nd.inv_cdf(1.0 - p)) / p
 
 
 # --------------------------------------------------------------------------------------------
@@ -206,6 +217,11 @@ def _mods():
     _M["dhcross"] = g("pybrops.breed.prot.mate.TwoWayDHCross").TwoWayDHCross
     _M["vmatfcty"] = g("pybrops.model.vmat.fcty.DenseTwoWayDHAdditiveGeneticVarianceMatrixFactory").DenseTwoWayDHAdditiveGeneticVarianceMatrixFactory
     _M["haldane"] = g("pybrops.popgen.gmap.HaldaneMapFunction").HaldaneMapFunction
+    # the cross types a usefulness-criterion protocol can be given (variance matrix factory <-> parents per cross)
+    _M["vfcty"] = {k: getattr(g("pybrops.model.vmat.fcty.Dense%sDHAdditiveGeneticVarianceMatrixFactory" % stem),
+                              "Dense%sDHAdditiveGeneticVarianceMatrixFactory" % stem)
+                   for k, stem in (("two", "TwoWay"), ("dihybrid", "Dihybrid"), ("three", "ThreeWay"), ("four", "FourWay"))}
+    _M["ucprob"] = g("pybrops.breed.prot.sel.prob.UsefulnessCriterionSelectionProblem")
     _M["cmatfcty"] = g("pybrops.popgen.cmat.fcty.DenseMolecularCoancestryMatrixFactory").DenseMolecularCoancestryMatrixFactory
     algo = "pybrops.opt.algo."
     soln = "pybrops.opt.soln."
@@ -333,7 +349,10 @@ class C07(Prop):
             "contributions, dyadic real weights, every generator draw recorded (+ scripted SUS offsets 0, 1/1024 .. 3/4 of "
             "the spacing and spacing-1ulp); select (34%): EBV/GEBV/Random/OCS(+inequality constraint)/OHV/UC/MEH/MGR/GWGEBV/"
             "WGS/FamilyEBV/L2/EMBV in the four encodings + GenotypeBuilder/MOGS/OPV/PAFD/PAU subset (OHV/UC/EMBV: the four mate "
-            "encodings, unique_parents True and False, OHV with 1-4 parents per cross), unsorted taxa labels or none, "
+            "encodings, unique_parents True and False, OHV with 1-4 parents per cross; UC with every cross type = variance "
+            "matrix factory: two-way / dihybrid (2 parents), three-way (3 parents, contributions 1/2,1/4,1/4), four-way (4 "
+            "parents), selected fraction 1/20..1/2 and 0-2 selfing generations, and with the exact optimiser the criterion of "
+            "EVERY candidate cross recomputed from the raw breeding values and the variance matrix), unsorted taxa labels or none, "
             "unphased gmat distinct from pgmat, breeding values with a 25000 / 2^30 offset, best candidates at the high "
             "indices, with the exact sorting optimiser on the population and on a permuted, renamed copy (40% through the "
             "same protocol object), or a stub optimiser returning scripted single-/multi-objective solution sets (default "
@@ -355,7 +374,11 @@ class C07(Prop):
                "spacing is not dyadic AND a pointer lies within 2^-40 of a cumulative-weight boundary (0 of ~1300 real "
                "cases per run so far)",
                "problem objects (objective evaluation) are entered through their evalfn (C05 covers them); for EBV/GEBV "
-               "subset selection the criterion is additionally recomputed from the raw inputs; the criterion of a candidate "
+               "subset selection and for usefulness-criterion mate selection the criterion is additionally recomputed from the "
+               "raw inputs (UC: progeny mean exactly in Lean `SelProt.progenyMean` with the cross type's contributions; the "
+               "variance matrix entries come from the variance matrix factory called directly - not C07's - and the "
+               "intensity * sqrt(variance) summand is binary64 in Python, compared with a 1e-9 relative tolerance); for OHV / "
+               "EMBV / WGS / GWGEBV the criterion is the problem's own (Spec through evalfn only); the criterion of a candidate "
                "the problem does not offer is obtained from the same evalfn at its cross-map position",
                "numpy RandomState.choice(replace=False)/shuffle deliver sub-multisets / permutations (each recorded draw is "
                "validated by the driver); RecRNG.shuffle applies x[permutation(n)] instead of numpy's in-place algorithm; "
@@ -382,6 +405,13 @@ class C07(Prop):
                    "in a history every table is judged against the decision the configuration object itself reports "
                    "(cfg.xconfig_decn) immediately before the sample; that this equals the row of the solution array it "
                    "was given (no defensive copy) is a matter of correspondence only",
+                   "usefulness criterion of a candidate cross = (expected parental genome contributions the variance matrix "
+                   "of the cross type declares, checked against the model's table 1/2,1/2 | 1/2,1/4,1/4 | 1/4 x4) . (breeding "
+                   "values of the parents) + intensity(upper_percentile) * sqrt(max(variance matrix entry, 0)); a three-way / "
+                   "four-way candidate is the ascending parent tuple with its positions as the roles (lowest index = recurrent "
+                   "parent; (p0 x p1) x (p2 x p3)) - the cross map of the code: a permutation of the individuals that does not "
+                   "preserve their order changes the candidate set itself (other role assignments, other criterion values), so "
+                   "for these two cross types equivariance is judged on order-preserving relabellings only",
                    "known finding D20 absorbs a failing case only if EVERY failing clause of that case is a share deviation "
                    "of a table the as-is integer sampler can produce (integer encoding, counts that do not tile the slots, "
                    "some count >= 2, use counts within [q d_i, (q+1) d_i]: theorem integer_use_counts_iff)"]
@@ -438,6 +468,34 @@ class C07(Prop):
         c.append({"kind": "xmapix", "ntaxa": 2, "nparent": 3, "unique": True})
         c += self._corpus_round3()
         c += self._corpus_round4()
+        c += self._corpus_round5()
+        return c
+
+    def _corpus_round5(self):
+        """round 5: usefulness-criterion selection with every cross type (variance matrix factory); the three-way type
+        has unequal expected parental genome contributions (1/2, 1/4, 1/4), so the criterion is not mid-parent + spread"""
+        import random as _r
+        rng = _r.Random(20260931)
+        c = []
+        for vf, n, uq, nc, p, ns in (("three", 5, True, 2, "1/10", 0), ("three", 4, False, 3, "1/4", 1),
+                                     ("four", 5, True, 2, "1/10", 0), ("dihybrid", 5, True, 3, "1/2", 2),
+                                     ("two", 5, False, 3, "1/20", 1),
+                                     # options away from their defaults (selfing generations, selected fraction)
+                                     ("two", 6, True, 4, "1/2", 2), ("two", 6, False, 5, "1/4", 2),
+                                     ("three", 5, True, 4, "1/20", 2), ("three", 4, False, 6, "1/2", 2),
+                                     ("dihybrid", 6, True, 5, "1/4", 1), ("four", 5, False, 8, "1/4", 2)):
+            nv = 6
+            k = {"kind": "select", "family": "uc", "enc": "mate_subset", "algo": "sorting", "ntaxa": n, "ncross": nc,
+                 "nparent": UC_NPARENT[vf], "vfcty": vf, "upper_percentile": p, "nself": ns, "unique": uq,
+                 "seed": 70 + n + nc, "nmating": 1, "nprogeny": 4, "bv": rng.sample(range(-20, 40), n), "unscale": True,
+                 "obj_wt": 1, "nobj": 1, "reuse": False, "perm": rng.sample(range(n), n),
+                 "names2": ["m%03d" % v for v in rng.sample(range(1000), n)],
+                 "geno": [[[rng.randint(0, 1) for _ in range(nv)] for _ in range(n)] for _ in range(2)],
+                 "names": ["n%04d" % v for v in rng.sample(range(10000), n)],
+                 "u_a": [[rng.choice([-4, -2, 1, 2, 3, 5, 8])] for _ in range(nv)]}
+            if vf in ("three", "four") and ns == 2:
+                k["perm"] = list(range(n))      # order-preserving relabelling: the equivariance clause applies
+            c.append(k)
         return c
 
     def _corpus_round4(self):
@@ -725,8 +783,16 @@ class C07(Prop):
         ntaxa = rng.randint(3, 7)
         nvrnt = rng.choice([4, 6])
         nparent = rng.choice([1, 2, 2, 3])
-        if fam in ("uc", "embv"):
-            nparent = 2             # two-way variance factory / two-way DH mating protocol
+        vf = None
+        if fam == "embv":
+            nparent = 2             # two-way DH mating protocol
+        elif fam == "uc":
+            # the cross type = the variance matrix factory handed to the protocol; it fixes the number of parents per
+            # cross AND the expected parental genome contributions (three-way: 1/2, 1/4, 1/4 - unequal)
+            vf = rng.choice(["two", "two", "three", "three", "three", "four", "dihybrid"])
+            nparent = UC_NPARENT[vf]
+            if vf == "four":
+                ntaxa = rng.randint(3, 5)
         elif fam == "ohv":
             nparent = rng.choice([1, 2, 2, 3, 3, 4])    # multi-way crosses: cross maps of C(n+d-1, d) rows
             if nparent == 4:
@@ -766,6 +832,10 @@ class C07(Prop):
         case["bv"] = bvs
         case["unscale"] = rng.random() < 0.5
         case["obj_wt"] = rng.choice([1, 1, 1, -1])
+        if vf is not None:
+            case["vfcty"] = vf
+            case["upper_percentile"] = rng.choice(["1/10", "1/10", "1/4", "1/2", "1/20"])
+            case["nself"] = rng.choice([0, 0, 1, 2])
         if fam in ("ohv", "uc", "embv"):
             case["unique"] = rng.random() < 0.5
             if case["unique"] and nparent > ntaxa:
@@ -824,6 +894,8 @@ class C07(Prop):
                 self._gen_b_over(rng, case, hi)
                 if n2 != ntaxa:
                     case["b_over"]["ntaxa"] = n2
+            if vf in ("three", "four") and rng.random() < 0.5:
+                case["perm"] = sorted(case["perm"])     # order-preserving relabelling (see `asym` in the judge)
         else:
             # scripted solution set
             nobj = rng.choice([1, 1, 2, 2, 3])
@@ -1225,7 +1297,9 @@ class C07(Prop):
         elif fam == "ohv":
             kw.update(ntrait=ntrait, nhaploblk=2, unique_parents=bool(case["unique"]))
         elif fam == "uc":
-            kw.update(ntrait=ntrait, nself=0, upper_percentile=0.1, vmatfcty=M["vmatfcty"](), gmapfn=M["haldane"](),
+            kw.update(ntrait=ntrait, nself=int(case.get("nself", 0)),
+                      upper_percentile=float(Fraction(case.get("upper_percentile", "1/10"))),
+                      vmatfcty=M["vfcty"][case.get("vfcty", "two")](), gmapfn=M["haldane"](),
                       unique_parents=bool(case.get("unique", True)))
         elif fam in ("meh",):
             pass
@@ -1402,6 +1476,14 @@ class C07(Prop):
                                store["prob"].decn_space_lower.dtype.kind in "iu")
         if enc.startswith("mate_"):
             r["xmap"] = [[int(v) for v in row] for row in cfg.xconfig_xmap]
+        if case["family"] == "uc" and case["algo"] == "sorting":
+            # the public pieces the usefulness criterion of a candidate cross is made of, obtained independently of the
+            # selection problem: the variance matrix of the cross type (its entries and its declared expected parental
+            # genome contributions); the breeding values are recomputed exactly from the raw inputs by the judge
+            vobj = M["vfcty"][case.get("vfcty", "two")]().from_gmod(
+                gmod=gp, pgmat=pg, ncross=1, nprogeny=1, nself=int(case.get("nself", 0)), gmapfn=M["haldane"]())
+            r["uc_epgc"] = [canon.enc(float(v)) for v in vobj.epgc]
+            r["uc_pvar"] = [canon.enc(float(vobj.mat[tuple(c) + (0,)])) for c in self._candidates(ce)]
         if "single_obj" in store:
             r["single_obj"] = [canon.enc(v) for v in store["single_obj"]]
             r["space"] = store["space"]
@@ -1756,6 +1838,10 @@ class C07(Prop):
                 o["_pos_full"] = pos
                 if all(v is not None for v in o["full_obj"]) and all(v is not None for v in pos):
                     add(key + ".topk_full", {"op": "c07.spec_topk", "obj": o["full_obj"], "k": len(pos), "decn": pos})
+                if "uc_pvar" in o:
+                    # exact part of the criterion in the model: epgc of the cross type . exact breeding values
+                    add(key + ".uc_pmean", {"op": "c07.uc_pmean", "cross_type": case.get("vfcty", "two"),
+                                            "bv": [canon.enc(v) for v in self._exact_gebv(case, key)], "xmap": cands})
         if mate:
             for key in ("a", "b"):
                 if key in obs:
@@ -2004,6 +2090,11 @@ class C07(Prop):
                 else:
                     s = need(False)
                     details.append(f"{key}: chosen decision {o['decn']} is not a candidate of the population")
+                if key + ".uc_pmean" in by:
+                    cu, su, du = self._judge_uc(case, ce, o, self._ok(by[key + ".uc_pmean"][0]))
+                    c = c and cu
+                    s = s and need(su)
+                    details.append(f"{key}: {du}")
                 per[key] = {"vals": sorted(so_vals[i] for i in o["decn"]), "distinct": distinct}
             corr = corr and c
             spec = spec and s
@@ -2031,7 +2122,13 @@ class C07(Prop):
             # equivariance under permutation + relabelling
             rnd = case["family"] in ("random", "embv")      # the criterion itself is redrawn / re-simulated in every run
             sub = len(case["perm"]) != case["ntaxa"]        # second population = a sub-population: nothing to compare
-            rnd = rnd or sub
+            # three-way crosses: a candidate is an ORDERED role assignment (recurrent = lowest index of the ascending
+            # tuple, contributions 1/2, 1/4, 1/4); a permutation of the individuals that is not order preserving does not
+            # map candidate crosses to candidate crosses, so only order-preserving relabellings are compared there
+            # (four-way crosses likewise: the variance of (p0 x p1) x (p2 x p3) depends on the pairing)
+            asym = (case["family"] == "uc" and case.get("vfcty") in ("three", "four")
+                    and list(case["perm"]) != sorted(case["perm"]))
+            rnd = rnd or sub or asym
             kk = min(len(per["a"]["vals"]), len(per["b"]["vals"]))     # (a re-assigned ncross: the best kk of both)
             eq_vals = rnd or canon.close(per["a"]["vals"][:kk], per["b"]["vals"][:kk], rel=1e-9, abs_=1e-9)
             spec = spec and need(eq_vals)
@@ -2099,6 +2196,45 @@ class C07(Prop):
                 nontriv = len(cand) >= 2
         return {"corr": corr, "spec": spec, "nontrivial": nontriv, "share_only": share_only and not st["hard"],
                 "detail": f"select[{case['family']}/{enc}/{case['algo']}] " + " | ".join(details)}
+
+    @staticmethod
+    def _exact_gebv(case, key):
+        """genomic estimated breeding values (trait 0) of the population of run `key`, exactly, from the raw inputs of
+        `_world`: beta = 1, u_a = case["u_a"], genotype = sum of the two phases"""
+        idx = list(range(case["ntaxa"])) if key == "a" else list(case["perm"])
+        return [1 + sum(Fraction(case["u_a"][j][0]) * (case["geno"][0][i][j] + case["geno"][1][i][j])
+                        for j in range(len(case["u_a"]))) for i in idx]
+
+    def _judge_uc(self, case, ce, o, u):
+        """the usefulness criterion of every candidate cross, independently of the selection problem:
+        (expected parental genome contributions of the cross type) . (exact breeding values of the parents, Lean)
+        + intensity * sqrt(max(variance of the cross, 0)); the chosen crosses must be the best by it"""
+        cands = self._candidates(ce)
+        epgc_ok = [Fraction(v) for v in canon.dec(o["uc_epgc"])] == [Fraction(v) for v in canon.dec(u["epgc"])]
+        inten = _uc_intensity(case)
+        crit = [float(Fraction(pm)) + inten * math.sqrt(max(float(Fraction(pv)), 0.0))
+                for pm, pv in zip(canon.dec(u["pmean"]), canon.dec(o["uc_pvar"]))]
+        w = float(Fraction(case.get("obj_wt", 1)))
+        loc = {tuple(t): i for i, t in enumerate(cands)}
+        xmap = o["xmap"]
+        pos = [loc.get(tuple(sorted(xmap[d])) if 0 <= d < len(xmap) else None) for d in o["decn"]]
+        tol = 1e-9 * max([1.0] + [abs(v) for v in crit])
+        if len(crit) != len(cands) or any(v is None for v in pos):
+            return epgc_ok, False, f"usefulness criterion: chosen decision {o['decn']} is not a candidate cross"
+        chosen = set(pos)
+        worst_in = min(w * crit[i] for i in chosen)
+        out = [w * crit[j] for j in range(len(cands)) if j not in chosen]
+        ok = (not out) or worst_in >= max(out) - tol
+        # correspondence: the objective the problem reports for every candidate is the negated weighted criterion
+        full = [None if v is None else float(Fraction(v)) for v in canon.dec(o["full_obj"])]
+        same = all(v is not None for v in full) and canon.close(full, [-w * v for v in crit], rel=1e-9, abs_=1e-9)
+        better = sorted(range(len(cands)), key=lambda j: -w * crit[j])[:len(pos)]
+        return (epgc_ok and same), ok, (
+            f"usefulness criterion [{case.get('vfcty', 'two')}-way, epgc={[str(Fraction(v)) for v in canon.dec(u['epgc'])]}, "
+            f"p={case.get('upper_percentile', '1/10')}, nself={case.get('nself', 0)}] recomputed from breeding values and the "
+            f"variance matrix: chosen crosses {[cands[i] for i in pos]} (criterion {[round(crit[i], 6) for i in pos]}) are the "
+            f"best={ok}" + ("" if ok else f"; the best are {[cands[i] for i in better]} (criterion {[round(crit[i], 6) for i in better]})")
+            + f" problem_objective_is_the_criterion={same} epgc_as_model={epgc_ok}")
 
     @staticmethod
     def _independent_criterion(case):
@@ -2518,7 +2654,22 @@ class C07(Prop):
                     self._ndset_trans = real_trans
             return _patch(cls, "select", select)
 
+        # ---- round 5: the criterion of a candidate cross for cross types with unequal parental contributions
+        UcMixin = M["ucprob"].UsefulnessCriterionSelectionProblemMixin
+        orig_calc_uc = UcMixin.__dict__["_calc_uc"].__func__
+
+        def calc_uc_midparent(vmatfcty, ncross, nprogeny, nself, gmapfn, selection_intensity, pgmat, gmod, xmap):
+            """progeny mean 'simplified' to the mid-parent value (class of C07-e2): right for equal contributions only"""
+            uc = orig_calc_uc(vmatfcty, ncross, nprogeny, nself, gmapfn, selection_intensity, pgmat, gmod, xmap)
+            vobj = vmatfcty.from_gmod(gmod=gmod, pgmat=pgmat, ncross=ncross, nprogeny=nprogeny, nself=nself, gmapfn=gmapfn)
+            bv = gmod.gebv(pgmat).unscale()
+            epgc = numpy.array(vobj.epgc)
+            for i, cc in enumerate(xmap):
+                uc[i, :] += bv[cc, :].mean(0) - epgc.dot(bv[cc, :])
+            return uc
+
         muts = [
+            ("uc_progeny_mean_is_the_midparent_value", lambda: _patch(UcMixin, "_calc_uc", staticmethod(calc_uc_midparent))),
             ("mo_choice_skipped_when_miscout_is_None", lambda: _many(*[first_point_without_miscout(M["protmod"][e]) for e in M["protmod"]])),
             ("decision_values_stale_after_in_place_revision", lambda: _many(*[stale_decision_values(M["cfgmod"][e]) for e in M["cfgmod"]])),
             ("axis_shuffle_permutes_columns_for_a_Generator", lambda: _many(*[_patch(m, "axis_shuffle", axis_permuted_for_generator) for m in ind_mods])),
